@@ -4,8 +4,8 @@ Model.Ring — the virtual ring of proxy/proxy.go: `buildNodes` (node list, addr
 assignment), `buildLocalRow`, `filterSystemLocalValues` / `filterSystemPeerValues`,
 `interceptSystemQuery` with the selectors of parser.go (`FilterColumns`, `FilterValues`).
 Addresses are the byte strings `compareIPAddr` compares (16-byte form); host ids are
-`hostId addr`, an uninterpreted function of the address (MD5 is not modelled: the stream's
-oracle recomputes the version-3 UUID independently).
+`hostId name`, rendered by the driver as `Md5.nameBasedUUID` of the address text (Model/Md5: MD5 itself and the
+version / variant stamping; the stream compares the bytes with what the proxy presents).
 -/
 namespace CqlVerif.Ring
 open CqlVerif.Select
